@@ -83,7 +83,9 @@ func NewBuffer[K comparable, V any]() *Buffer[K, V] {
 //
 // item may be lost due to contention.
 func (b *Buffer[K, V]) Add(n ReadBufItem[K, V]) *PolicyBuffers[K, V] {
+	verifYield(1)
 	head := b.head.Load()
+	verifYield(2)
 	tail := b.tail.Load()
 	size := tail - head
 	if size >= capacity {
@@ -92,9 +94,11 @@ func (b *Buffer[K, V]) Add(n ReadBufItem[K, V]) *PolicyBuffers[K, V] {
 		// sees it full takes over the drain (the new item itself is dropped)
 		return b.drain()
 	}
+	verifYield(4)
 	if b.tail.CompareAndSwap(tail, tail+1) {
 		// success
 		index := int(tail & mask)
+		verifYield(5)
 		atomic.StorePointer(&b.buffer[index], unsafe.Pointer(&ReadBufItem[K, V]{
 			entry: n.entry,
 			hash:  n.hash,
@@ -112,28 +116,35 @@ func (b *Buffer[K, V]) Add(n ReadBufItem[K, V]) *PolicyBuffers[K, V] {
 // drain takes the batch token and collects every published slot.
 // head is only written by the token holder, so it is re-read here.
 func (b *Buffer[K, V]) drain() *PolicyBuffers[K, V] {
+	verifYield(11)
 	if !atomic.CompareAndSwapPointer(&b.returned, b.policyBuffers, nil) {
 		// somebody already get buffer
 		return nil
 	}
+	verifYield(12)
 	head := b.head.Load()
+	verifYield(13)
 	if b.tail.Load()-head < capacity {
 		// drained meanwhile
+		verifYield(14)
 		atomic.StorePointer(&b.returned, b.policyBuffers)
 		return nil
 	}
 	pb := (*PolicyBuffers[K, V])(b.policyBuffers)
 	for i := 0; i < capacity; i++ {
 		index := int(head & mask)
+		verifYield(15)
 		v := atomic.LoadPointer(&b.buffer[index])
 		if v != nil {
 			// published
 			pb.Returned = append(pb.Returned, *castToPointer[K, V](v))
 			// release
+			verifYield(16)
 			atomic.StorePointer(&b.buffer[index], nil)
 		}
 		head++
 	}
+	verifYield(17)
 	b.head.Store(head)
 	return pb
 }
@@ -163,6 +174,7 @@ func (b *Buffer[K, V]) Free() {
 		pb.Returned[i].hash = 0
 	}
 	pb.Returned = pb.Returned[:0]
+	verifYield(21)
 	atomic.StorePointer(&b.returned, b.policyBuffers)
 }
 
